@@ -1,16 +1,40 @@
 (* C16: the reduced-fraction evaluator used by the calibrate correspondence equals the model. *)
 Require Import Cherab.Common.Qx.
 Require Import Cherab.Model.C16_Instruments Cherab.Model.C16_Check.
+From Coq Require Import Lqa.
 Open Scope Q_scope.
+
+Lemma qle_bool_false' a b : Qle_bool a b = false -> b < a.
+Proof. intros H. apply Qnot_le_lt. intros L. apply Qle_bool_iff in L. congruence. Qed.
+
+(* a segment entirely to one side of [a,b] contributes nothing *)
+Lemma seg_outside_zero x0 y0 x1 y1 a b : seg_outside x0 x1 a b = true -> seg_integral x0 y0 x1 y1 a b == 0.
+Proof.
+  unfold seg_outside. intros H. apply andb_prop in H as [H01 H]. apply Qle_bool_iff in H01.
+  unfold seg_integral. generalize ((y1 - y0) / (x1 - x0)). intros m.
+  apply orb_prop in H as [H|H]; apply andb_prop in H as [Ha Hb].
+  - unfold clamp. rewrite Ha, Hb. ring.
+  - apply Qle_bool_iff in Ha, Hb.
+    assert (forall t, x1 <= t -> clamp x0 x1 t == x1) as Hc.
+    { intros t Ht. unfold clamp. destruct (Qle_bool t x0) eqn:E.
+      - apply Qle_bool_iff in E. lra.
+      - assert (Qle_bool x1 t = true) as -> by (apply Qle_bool_iff, Ht). reflexivity. }
+    rewrite (Hc a Ha), (Hc b Hb). ring.
+Qed.
 
 Lemma segs_integral_red_ok xs : forall ys a b, segs_integral_red xs ys a b == segs_integral xs ys a b.
 Proof.
   induction xs as [|x0 xt IH]; intros ys a b; [reflexivity|].
   destruct xt as [|x1 xt']; [destruct ys; reflexivity|].
   destruct ys as [|y0 [|y1 yt']]; try reflexivity.
-  change (Qred (Qred (seg_integral x0 y0 x1 y1 a b) + segs_integral_red (x1 :: xt') (y1 :: yt') a b)
-          == seg_integral x0 y0 x1 y1 a b + segs_integral (x1 :: xt') (y1 :: yt') a b).
-  rewrite Qred_correct, Qred_correct, IH. reflexivity.
+  change (segs_integral (x0 :: x1 :: xt') (y0 :: y1 :: yt') a b)
+    with (seg_integral x0 y0 x1 y1 a b + segs_integral (x1 :: xt') (y1 :: yt') a b).
+  change (segs_integral_red (x0 :: x1 :: xt') (y0 :: y1 :: yt') a b)
+    with (if seg_outside x0 x1 a b then segs_integral_red (x1 :: xt') (y1 :: yt') a b
+          else Qred (Qred (seg_integral x0 y0 x1 y1 a b) + segs_integral_red (x1 :: xt') (y1 :: yt') a b)).
+  destruct (seg_outside x0 x1 a b) eqn:E.
+  - rewrite (seg_outside_zero _ y0 _ y1 _ _ E), IH. ring.
+  - rewrite Qred_correct, Qred_correct, IH. reflexivity.
 Qed.
 
 Lemma pl_integral_red_ok xs ys a b : pl_integral_red xs ys a b == pl_integral xs ys a b.
